@@ -17,6 +17,29 @@ CH_NOTE = ("Trusted: CPython, CrossHair 0.0.110's models of int/bool/str primiti
            "replayed under /venv/bin/python without CrossHair before it is reported.")
 
 CLAIMS = {
+    'C07': dict(
+        engine='CH',
+        technique='solver-driven path exploration with CrossHair/z3 (finite-choice inputs fixed by solver-decided forks, '
+                  'exhaustion certified by the solver) of the real writer -> reader -> writer cycle on namespace models '
+                  'produced by the real scanner pipeline; counterexamples replayed concretely',
+        category='model_checking',
+        text='For every scenario of the families below the namespace produced by Transformer/GDumpParser/'
+             'MainTransformer/IntrospectablePass is written with GIRWriter, read back with GIRParser and written again: '
+             'the bytes must be identical, and a second cycle must be a fixed point too. Families: one value of each of '
+             '31 type kinds (and varargs) x transfer x direction x nullable/optional/not/skip in functions, methods, '
+             'callbacks, virtual methods and callback fields; (array length/fixed-size/zero-terminated) x (element-type) '
+             'x (type); scope/closure/destroy incl. missing targets; documentation text with markup characters, '
+             'newlines, tabs, non-ASCII and surrounding blanks, Since/Deprecated/Stability with and without text, '
+             'attributes and skip on 16 element kinds inside a namespace with class, interface and class structs, '
+             'records with callback/bit/array/private fields, union with nested struct, bitfield, constants of every '
+             'kind, inline function, error domain and doc sections; dumped properties/signals with accessors, async '
+             'triples, rename-to, emitter, ref/unref/value, copy/free/foreign, virtual, setter/getter/default-value. '
+             'The 24 GIR files of the repository go through the same cycle concretely on every run.',
+        design_ref='DESIGN.md section 4, C07',
+        note=CH_NOTE + ' Finite-choice inputs are fixed by solver-decided binary search (vlib/sym.py); the cycle then '
+             'runs with the real xml.etree reader (no element-tree adapter was needed). types_only reader mode, the '
+             'pickle cache and file positions other than the main one are outside the claim. One recorded finding (bare '
+             'container type after an unknown (type) override) is checked in an item of its own.'),
     'C17': dict(
         engine='LLSYM',
         technique='symbolic execution of the LLVM IR clang emits for functions sliced verbatim from '
